@@ -5,6 +5,10 @@ import SF.Lemmas.LagRsi
 import SF.Lemmas.Flex
 import SF.Lemmas.CyberCycle
 import SF.Lemmas.Real
+import SF.Lemmas.Eft
+import SF.Lemmas.Pfe
+import SF.Lemmas.Ema
+import SF.Lemmas.Sma
 import Mathlib.Analysis.Real.Pi.Bounds
 /-
   C11 — Ehlers-style indicators follow their defining difference equations.
@@ -12,8 +16,9 @@ import Mathlib.Analysis.Real.Pi.Bounds
   of  f(t) = c1·(x(t)+x(t−1))/2 + b1·f(t−1) + c3·f(t−2)  with zero initial state, reported from the N-th value on,
   where a1 = exp(−1.414·π/N), b1 = 2·a1·cos(4.4422/N), c3 = −a1², c1 = 1 − b1 − c3 (the code's literal 4.4422 for
   1.414·π; `literal_close` bounds the difference).  I.e. the register shuffling `filt_2 = filt_1; filt_1 = filt`
-  is proved equal to plain delays.  The other eight views of the statement are decided by `./check C11` against the
-  executable specs of SF/Spec.lean in exact arithmetic (see DESIGN.md §4 for what is still unproved).
+  is proved equal to plain delays.  All nine views of the statement are characterised below (`…_eq`): state machine =
+  batch re-evaluation, for every admissible N and every history; `./check C11` ties these models to the code and
+  evaluates the same executable specs against the implementation in exact arithmetic.
 -/
 namespace SF.C11
 open SF SF.Spec
@@ -102,6 +107,46 @@ theorem coefficients (N : Nat) :
 theorem model_coefficients (N : Nat) :
     ((SF.ssCoef (α := α) N).c1, (SF.ssCoef (α := α) N).c2, (SF.ssCoef (α := α) N).c3)
       = ((Spec.ssCoef (α := α) N).c1, (Spec.ssCoef (α := α) N).b1, (Spec.ssCoef (α := α) N).c3) := SS.coef_eq N
+
+/-! ### the two views with an embedded moving average -/
+
+/-- a moving-average view "realises" a batch function when it never panics and, after being fed any list, reports that
+function of the list.  Every core characterised in C02/C04, run over Echo, does (`realises_overEcho`). -/
+theorem realises_overEcho (B : Core α) (spec : List α → Option α) (h : ∀ xs, B.outAfter xs = .ok (spec xs)) :
+    Eft.Realises (overEcho B) spec := Eft.realises_overEcho B spec h
+
+/-- **EhlersFisherTransform equals the batch re-evaluation**, every N ≥ 1, every history, every realising moving average:
+window min-max normalisation into [−1, 1] (the cached high / low are proved to be the extrema of exactly the last N values,
+rescans and the emptied-window default included), smoothing, clamp to ±0.99, 0.5·ln((1+v)/(1−v)) + 0.5·previous;
+0 on a flat window and for the first smoothed value -/
+theorem fisher_eq (N : Nat) (hN : 0 < N) (ma : View α) (maS : List α → Option α) (hR : Eft.Realises ma maS) (xs : List α) :
+    (eftCore N ma).outAfter xs = .ok (Spec.fisher N maS xs) := Eft.outAfter_eq N hN ma maS hR xs
+
+/-- … in particular with the Ema(M) the crate's examples use, and with an Sma(M) -/
+theorem fisher_ema_eq (N M' : Nat) (hN : 0 < N) (hM : 0 < M') (xs : List α) :
+    (eftCore N (overEcho (emaCore (α := α) M' (nat 2)))).outAfter xs = .ok (Spec.fisher N (Spec.ema M' (nat 2)) xs) :=
+  Eft.outAfter_eq N hN _ _ (Eft.realises_overEcho _ _ (Ema.outAfter_eq M' hM (nat 2))) xs
+theorem fisher_sma_eq (N M' : Nat) (hN : 0 < N) (hM : 0 < M') (xs : List α) :
+    (eftCore N (overEcho (smaCore (α := α) M'))).outAfter xs = .ok (Spec.fisher N (Spec.sma M') xs) :=
+  Eft.outAfter_eq N hN _ _ (Eft.realises_overEcho _ _ (Sma.outAfter_eq M' hM)) xs
+
+/-- **PolarizedFractalEfficiency equals the batch re-evaluation**, every N ≥ 3 (the constructor's minimum), every history,
+every realising moving average: from the N-th value on the signed ratio of √((x(t) − x(t−N+1))² + N²) to the summed
+√(d² + 1) over the window's N−2 most recent steps (negative when the last step is down) is fed to the average -/
+theorem pfe_eq (N : Nat) (hN : 3 ≤ N) (ma : View α) (maS : List α → Option α) (hR : Eft.Realises ma maS) (xs : List α) :
+    (pfeCoreU N ma).outAfter xs = .ok (Spec.pfe N maS xs) := Pfe.outAfter_eq N hN ma maS hR xs
+
+theorem pfe_ema_eq (N M' : Nat) (hN : 3 ≤ N) (hM : 0 < M') (xs : List α) :
+    (pfeCoreU N (overEcho (emaCore (α := α) M' (nat 2)))).outAfter xs = .ok (Spec.pfe N (Spec.ema M' (nat 2)) xs) :=
+  Pfe.outAfter_eq N hN _ _ (Eft.realises_overEcho _ _ (Ema.outAfter_eq M' hM (nat 2))) xs
+theorem pfe_sma_eq (N M' : Nat) (hN : 3 ≤ N) (hM : 0 < M') (xs : List α) :
+    (pfeCoreU N (overEcho (smaCore (α := α) M'))).outAfter xs = .ok (Spec.pfe N (Spec.sma M') xs) :=
+  Pfe.outAfter_eq N hN _ _ (Eft.realises_overEcho _ _ (Sma.outAfter_eq M' hM)) xs
+
+/-- the ratio sequence grows by exactly one entry per value once N values exist (and is empty before) -/
+theorem pfe_ratios_step (N : Nat) (hN : 1 ≤ N) (xs : List α) (x : α) :
+    pfeRatios N (xs ++ [x]) = pfeRatios N xs ++ (if xs.length + 1 < N then [] else [Pfe.ratioAt N (xs ++ [x]) xs.length]) :=
+  Pfe.pfeRatios_snoc N hN xs x
 
 end SF.C11
 
